@@ -20,7 +20,9 @@
 //!     (`str::parse::<AST>`, `Context::try_from`, `check`, `gen_arguments`) and rendered WITHOUT a path
 //!     (source attached), so that the model can be instantiated with them:
 //!     field 1 per file `ok` | `e<hex msg>`; field 2 `ok` | `-` (not reached) | `e<hex>;<hex>`;
-//!     field 3 per file `ok` | `-` | `e<hex>;<hex>..`; field 4 per file `o<hex python>` | `-` | `e<hex>`.
+//!     field 3 per file `ok` | `-` | `e<hex>;<hex>..`; field 4 per file `o<hex python>` | `-` | `e<hex>`;
+//!     field 5 (only when the context stage failed) per file `ok` | `e<hex>;<hex>..`: the result of building that
+//!     file's context alone, which is what `mamba_to_python` uses to attribute context errors.
 use std::convert::TryFrom;
 use std::fs;
 use std::path::{Path, PathBuf};
@@ -230,7 +232,29 @@ fn stages(fields: &[&str]) -> String {
         Ok(ctx) => ctx,
         Err(errs) => {
             let msgs: Vec<String> = errs.iter().map(|e| hex(&format!("{e}"))).collect();
-            return format!("OK\t{}\te{}\t{}\t{}", f1.join(","), msgs.join(";"), dash(n), dash(n));
+            // which files fail when their context is built alone (source attached, no path)
+            let alone: Vec<String> = asts
+                .iter()
+                .zip(&input)
+                .map(|(ast, (src, _))| match Context::try_from(std::slice::from_ref(ast)) {
+                    Ok(_) => "ok".to_string(),
+                    Err(errs) => {
+                        let ms: Vec<String> = errs
+                            .into_iter()
+                            .map(|e| hex(&format!("{}", e.with_source(&Some(src.clone()), &None))))
+                            .collect();
+                        format!("e{}", ms.join(";"))
+                    }
+                })
+                .collect();
+            return format!(
+                "OK\t{}\te{}\t{}\t{}\t{}",
+                f1.join(","),
+                msgs.join(";"),
+                dash(n),
+                dash(n),
+                alone.join(",")
+            );
         }
     };
     let mut f3 = vec![];
